@@ -32,3 +32,31 @@ def union_bytype_int_for_float(job, failure) -> bool:
 
 def unique_items_bool_int(job, failure) -> bool:
     return _explained(job, failure, "unique_bool_int")
+
+
+def unique_items_unhashable(job, failure) -> bool:
+    """C03: the crash disappears when UniqueItemsConstraint tolerates elements that
+    to_hashable() cannot hash (dict with mixed-type keys, non-JSON unhashable value)"""
+    if failure.get("kind") != "crash" or failure.get("extra", {}).get("exc") != "TypeError":
+        return False
+    from apischema.deserialization import methods as M
+    from vf.engine import run_concrete
+    from vf.run import harness_module
+
+    orig = M.UniqueItemsConstraint.validate
+
+    def tolerant(self, data):
+        try:
+            return orig(self, data)
+        except TypeError:
+            return True
+
+    M.UniqueItemsConstraint.validate = tolerant
+    try:
+        inst = harness_module(job["harness"]).make(job)
+        fail, _ = run_concrete(inst.body, failure["inputs"])
+        return fail is None
+    except Exception:
+        return False
+    finally:
+        M.UniqueItemsConstraint.validate = orig
